@@ -379,7 +379,14 @@ pub fn run(rec: &mut Rec, rng: &mut Rng, n_random: usize, full_exhaustive: bool)
                     chain = vec![x.to_string(), (0u64.wrapping_sub(x)).wrapping_add(rng.below(bs + 2)).to_string()];
                 }
                 let wrap = *rng.pick(&["", "", "", "some", "none", "unit"]);
-                format!("b.sdirty id={} chain={} off={} wrap={}", id, chain.join(","), rng.below(bs + 2), wrap)
+                // … and another quarter wrap at the query itself: a slice based far up, asked about an offset that brings the sum back
+                let mut off = rng.below(bs + 2);
+                if rng.chance(1, 4) {
+                    let x = rng.boundary(&[u64::MAX, 1 << 63]).max(1);
+                    chain = vec![x.to_string()];
+                    off = 0u64.wrapping_sub(x).wrapping_add(rng.below(bs + 2));
+                }
+                format!("b.sdirty id={} chain={} off={} wrap={}", id, chain.join(","), off, wrap)
             };
             go(&mut w, rec, line, nt);
         }
